@@ -12,8 +12,8 @@ package v1
 import (
 	"errors"
 	"fmt"
-	"sort"
 	"runtime"
+	"sort"
 	"testing"
 	"time"
 
